@@ -10,6 +10,8 @@
  *   crlfindraw <revoked list hex> <serial>
  *   name <attr,attr,...>                    attr = TYPE:tag:hexvalue  (TYPE in C ST L O OU CN DC)
  *   ext <kind> <critical> <args...>         one extension builder, parsed back
+ *   extlen <kind> <critical> <contenthex>   one extension builder at a given content length, in a certificate, checked
+ *   certck <same as cert>                   cert + x509_cert_check(server)
  *   flipall <cert|req|crl> <step> <offset> <same args as the object op ...>
  * hex fields: "-" = empty / absent.  issuer/subject/exts/attrs are the DER *content* the API takes.
  */
@@ -248,6 +250,68 @@ static void do_ext(size_t nw, char **w) {
 	else if (!strcmp(w[1], "iap")) { int v = -9; if (asn1_int_from_der(&v, &val, &vlen) == 1 && vlen == 0) printf(" skip=%d", v); else printf(" ERR"); }
 }
 
+
+/* ------------------------------------------------------------------ extension builders over content lengths (wave 2)
+ * extlen <kind> <critical> <contenthex>: build ONE extension with the library's builder, print it, find it again,
+ * decode the payload, put it (followed by a keyUsage extension) into a certificate, parse that back and run x509_cert_check */
+static void do_extlen(char **w) {
+	const char *kind = w[1]; int critical = atoi(w[2]); buf_t c = hex2buf(w[3]);
+	size_t max = c.n + 256, len = 0; uint8_t *exts = malloc(max + 64); int r = -1, oid = 0, modelled = 1;
+	int crit2 = -9; const uint8_t *val = NULL; size_t vlen = 0; int inner = 0;
+	if (!strcmp(kind, "cp")) { oid = OID_ce_certificate_policies; r = x509_exts_add_certificate_policies(exts, &len, max, critical, c.p, c.n); }
+	else if (!strcmp(kind, "pm")) { oid = OID_ce_policy_mappings; r = x509_exts_add_policy_mappings(exts, &len, max, critical, c.p, c.n); }
+	else if (!strcmp(kind, "san")) { oid = OID_ce_subject_alt_name; r = x509_exts_add_subject_alt_name(exts, &len, max, critical, c.p, c.n); }
+	else if (!strcmp(kind, "ian")) { oid = OID_ce_issuer_alt_name; r = x509_exts_add_issuer_alt_name(exts, &len, max, critical, c.p, c.n); }
+	else if (!strcmp(kind, "sda")) { oid = OID_ce_subject_directory_attributes; r = x509_exts_add_subject_directory_attributes(exts, &len, max, critical, c.p, c.n); }
+	else if (!strcmp(kind, "fcrl")) { oid = OID_ce_freshest_crl; r = x509_exts_add_freshest_crl(exts, &len, max, critical, c.p, c.n); }
+	else if (!strcmp(kind, "ski")) { oid = OID_ce_subject_key_identifier; r = x509_exts_add_subject_key_identifier(exts, &len, max, critical, c.p, c.n); }
+	else if (!strcmp(kind, "aki")) { oid = OID_ce_authority_key_identifier; r = x509_exts_add_authority_key_identifier(exts, &len, max, critical, c.p, c.n, NULL, 0, NULL, 0); }
+	else if (!strcmp(kind, "crldp")) { oid = OID_ce_crl_distribution_points; modelled = 0; r = x509_exts_add_crl_distribution_points(exts, &len, max, critical, (char *)c.p, c.n, NULL, 0); }
+	else if (!strcmp(kind, "aia")) { oid = OID_pe_authority_info_access; modelled = 0; r = x509_exts_add_authority_info_access(exts, &len, max, critical, (char *)c.p, c.n, NULL, 0); }
+	else if (!strcmp(kind, "nc")) { oid = OID_ce_name_constraints; modelled = 0; r = x509_exts_add_name_constraints(exts, &len, max, critical, c.p, c.n, NULL, 0); }
+	if (r != 1) { printf("build=ERR"); free(exts); free(c.p); return; }
+	printf("build=1 ext="); if (modelled) puthex(exts, len); else printf("unmodelled");
+	if (x509_exts_get_ext_by_oid(exts, len, oid, &crit2, &val, &vlen) != 1) { printf(" get=ERR"); free(exts); free(c.p); return; }
+	printf(" get=1 critical=%d", crit2);
+	{	const uint8_t *p = NULL; size_t pl = 0; const uint8_t *v = val; size_t vl = vlen;
+		if (!strcmp(kind, "ski")) inner = asn1_octet_string_from_der(&p, &pl, &v, &vl) == 1 && vl == 0 && pl == c.n && !memcmp(p, c.p, pl);
+		else if (!strcmp(kind, "aki")) { const uint8_t *iss, *ser; size_t il, sl;
+			inner = x509_authority_key_identifier_from_der(&p, &pl, &iss, &il, &ser, &sl, &v, &vl) == 1 && vl == 0 && pl == c.n && !memcmp(p, c.p, pl); }
+		else if (!strcmp(kind, "crldp")) { const char *uri; size_t ul; int reasons; const uint8_t *ci; size_t cil;
+			inner = x509_uri_as_distribution_points_from_der(&uri, &ul, &reasons, &ci, &cil, &v, &vl) == 1 && vl == 0 && ul == c.n && !memcmp(uri, c.p, ul); }
+		else if (!strcmp(kind, "aia")) { const char *u1, *u2; size_t l1, l2;
+			inner = x509_authority_info_access_from_der(&u1, &l1, &u2, &l2, &v, &vl) == 1 && vl == 0 && l1 == c.n && !memcmp(u1, c.p, l1); }
+		else if (!strcmp(kind, "nc")) inner = asn1_sequence_from_der(&p, &pl, &v, &vl) == 1 && vl == 0;
+		else inner = asn1_sequence_from_der(&p, &pl, &v, &vl) == 1 && vl == 0 && pl == c.n && !memcmp(p, c.p, pl);
+	}
+	printf(" inner=%d", inner);
+	{	/* into a certificate, followed by keyUsage */
+		uint8_t name[256]; size_t namelen = 0; uint8_t serial[8] = { 1, 2, 3, 4, 5, 6, 7, 8 }; size_t clen = 0; uint8_t *cert, *q; int plc = 0;
+		const uint8_t *ex2; size_t ex2l; int kcrit; const uint8_t *kv; size_t kvl;
+		if (x509_exts_add_key_usage(exts, &len, max + 64, X509_critical, X509_KU_DIGITAL_SIGNATURE) != 1
+			|| x509_name_set(name, &namelen, sizeof name, "CN", NULL, NULL, "VERIF", NULL, "ext") != 1
+			|| x509_cert_sign_to_der(X509_version_v3, serial, 8, OID_sm2sign_with_sm3, name, namelen, 1699990000, 1700090000, name, namelen,
+				&keys[1], NULL, 0, NULL, 0, exts, len, &keys[1], SM2_DEFAULT_ID, SM2_DEFAULT_ID_LENGTH, NULL, &clen) != 1) { printf(" cert=ERR"); free(exts); free(c.p); return; }
+		cert = malloc(clen); q = cert; clen = 0;
+		if (x509_cert_sign_to_der(X509_version_v3, serial, 8, OID_sm2sign_with_sm3, name, namelen, 1699990000, 1700090000, name, namelen,
+				&keys[1], NULL, 0, NULL, 0, exts, len, &keys[1], SM2_DEFAULT_ID, SM2_DEFAULT_ID_LENGTH, &q, &clen) != 1) { printf(" cert=ERR"); free(cert); free(exts); free(c.p); return; }
+		printf(" cert=1");
+		printf(" exts_rt=%d", x509_cert_get_exts(cert, clen, &ex2, &ex2l) == 1 && ex2l == len && !memcmp(ex2, exts, len));
+		printf(" ku_after=%d", x509_cert_get_exts(cert, clen, &ex2, &ex2l) == 1 && x509_exts_get_ext_by_oid(ex2, ex2l, OID_ce_key_usage, &kcrit, &kv, &kvl) == 1);
+		printf(" verify=%d", x509_signed_verify(cert, clen, &keys[1], SM2_DEFAULT_ID, SM2_DEFAULT_ID_LENGTH) == 1);
+		printf(" check=%d", x509_cert_check(cert, clen, X509_cert_server_auth, &plc) == 1);
+		free(cert);
+	}
+	free(exts); free(c.p);
+}
+/* certck = cert + x509_cert_check as a server certificate */
+static void do_certck(char **w) {
+	blob_t c; int plc = 0;
+	do_cert(w);
+	c = issue_cert(w);
+	if (c.p) { printf(" check=%d", x509_cert_check(c.p, c.n, X509_cert_server_auth, &plc) == 1); free(c.p); }
+}
+
 /* ------------------------------------------------------------------ single-bit modifications */
 static void do_flipall(size_t nw, char **w) {
 	const char *kind = w[1]; size_t step = strtoul(w[2], NULL, 10), off = strtoul(w[3], NULL, 10), i; int b;
@@ -286,6 +350,8 @@ static void handle(size_t nw, char **w) {
 	else if (!strcmp(w[0], "crlfindraw") && nw == 3) { buf_t raw = hex2buf(w[1]); blob_t rev = { raw.p, raw.n }; crlfind_on(rev, w[2]); free(raw.p); }
 	else if (!strcmp(w[0], "name") && nw == 2) do_name(w[1]);
 	else if (!strcmp(w[0], "ext") && nw >= 4) do_ext(nw, w);
+	else if (!strcmp(w[0], "extlen") && nw == 4) do_extlen(w);
+	else if (!strcmp(w[0], "certck") && nw == 12) do_certck(w + 1);
 	else if (!strcmp(w[0], "flipall")) do_flipall(nw, w);
 	else printf("ERR bad-op");
 }
